@@ -63,6 +63,12 @@ def run_seeded(job):
         out = r.stdout + r.stderr
         if r.returncode == 2:
             return (m, "corpus-error", out[-500:])
+        if meta.get("retired"):
+            # the change stopped breaking the property when /repo was repaired (see meta.json): the
+            # check must now stay silent on it
+            if r.returncode == 0:
+                return (m, "ok", "retired change: silent as required")
+            return (m, "FALSE-ALARM", "retired change (%s) still reported: %s" % (meta["retired"][:80], out[-600:]))
         if r.returncode == 1 and m["expect"] in out:
             return (m, "ok", "reported")
         return (m, "MISSED", "the check of %s was silent on a confirmed %s-breaking change" % (prop, prop))
